@@ -25,11 +25,29 @@ import (
 func init() {
 	lib.Register(&lib.Prop{ID: "C16", Level: "fault_enumeration", Run: run, Sub: map[string]func([]string) int{"proc": procChild}})
 	casket.RegisterServerType("verif", casket.ServerType{
-		Directives: func() []string { return []string{"srv", "cb"} },
+		Directives: func() []string { return []string{"srv", "cb", "park"} },
 		NewContext: func(inst *casket.Instance) casket.Context { return &vctx{inst: inst} },
 	})
 	casket.RegisterPlugin("srv", casket.Plugin{ServerType: "verif", Action: setupSrv})
 	casket.RegisterPlugin("cb", casket.Plugin{ServerType: "verif", Action: setupCb})
+	casket.RegisterPlugin("park", casket.Plugin{ServerType: "verif", Action: setupPark})
+}
+
+// the `park` directive (after cb, so the callbacks are registered): its setup
+// reports that it has been reached, waits to be released and then fails. It
+// holds a start or reload in the middle of its directives while the harness
+// does something else.
+var (
+	parkReached = make(chan struct{}, 8)
+	parkRelease = make(chan struct{})
+)
+
+func setupPark(c *casket.Controller) error {
+	for c.Next() {
+	}
+	parkReached <- struct{}{}
+	<-parkRelease
+	return fmt.Errorf("scripted failure of the park directive")
 }
 
 // ---------------------------------------------------------------- trace
@@ -739,6 +757,11 @@ type sigScenario struct {
 	Reloads  []string `json:"reloads"` // "ok" | "fail" via SIGUSR1 before the ending
 	Signals  []string `json:"signals"`
 	Parallel bool     `json:"parallel"`
+	// Overlap: before the ending, a start ("start") or a reload of the live
+	// instance ("reload") that is going to fail is held in the middle of its
+	// directives while a second, healthy instance (generation 60) is started;
+	// then the held one (generation 50) is let go and fails.
+	Overlap string `json:"overlap,omitempty"`
 }
 
 func signalRuns(c *lib.Ctx) {
@@ -755,6 +778,9 @@ func signalRuns(c *lib.Ctx) {
 		{Name: "USR1ok,USR1fail,USR1ok,SIGINT", Reloads: []string{"ok", "fail", "ok"}, Signals: []string{"INT"}},
 		{Name: "USR1ok,USR1ok,SIGTERM||SIGINT", Reloads: []string{"ok", "ok"}, Signals: []string{"TERM", "INT"}, Parallel: true},
 		{Name: "USR1fail,USR1fail,SIGTERMx2", Reloads: []string{"fail", "fail"}, Signals: []string{"TERM", "TERM"}, Parallel: true},
+		{Name: "failing-start||second-start,SIGTERM", Overlap: "start", Signals: []string{"TERM"}},
+		{Name: "failing-reload||second-start,SIGINT", Overlap: "reload", Signals: []string{"INT"}},
+		{Name: "USR1ok,failing-start||second-start,SIGTERM", Reloads: []string{"ok"}, Overlap: "start", Signals: []string{"TERM"}},
 	}
 	reps := c.Pick(1, 16)
 	for r := 0; r < reps; r++ {
@@ -767,7 +793,7 @@ func signalRuns(c *lib.Ctx) {
 func runSignal(c *lib.Ctx, sc sigScenario, n int) {
 	dir := filepath.Join(c.Dir, fmt.Sprintf("sig%d", n))
 	os.MkdirAll(dir, 0o755)
-	ports := lib.FreePorts(3)
+	ports := lib.FreePorts(5)
 	in, _ := json.Marshal(map[string]interface{}{"scenario": sc, "dir": dir, "ports": ports})
 	c.Journal("C16 signal scenario %s", sc.Name)
 	res := c.Sub("proc", nil, in, nil, 90*time.Second)
@@ -814,6 +840,16 @@ func runSignal(c *lib.Ctx, sc sigScenario, n int) {
 	for g := range gens {
 		sd, fsd := count(evs, g, "shutdown"), count(evs, g, "final-shutdown")
 		switch {
+		case sc.Overlap != "" && g == 60:
+			// the second instance is live at the end as well
+			if sd != 1 || fsd != 1 {
+				c.Violation("C16/process-shutdown-callbacks-not-exactly-once", fmt.Sprintf("%s: the second live instance (generation %d) ran shutdown %d times and final-shutdown %d times, want 1 and 1", sc.Name, g, sd, fsd), wit)
+			}
+		case sc.Overlap != "" && g == 50:
+			// never started: nothing of it may run at process shutdown
+			if sd != 0 || fsd != 0 {
+				c.Violation("C16/callbacks-of-discarded-instance-at-shutdown", fmt.Sprintf("%s: generation %d failed to start and was discarded, yet ran shutdown %d times and final-shutdown %d times at process shutdown", sc.Name, g, sd, fsd), wit)
+			}
 		case g == liveGen && !immediate && !forced:
 			if sd != 1 || fsd != 1 {
 				c.Violation("C16/process-shutdown-callbacks-not-exactly-once", fmt.Sprintf("%s: live generation %d ran shutdown %d times and final-shutdown %d times, want 1 and 1", sc.Name, g, sd, fsd), wit)
@@ -831,7 +867,8 @@ func runSignal(c *lib.Ctx, sc sigScenario, n int) {
 				c.Violation("C16/callback-more-than-once/shutdown", fmt.Sprintf("%s: generation %d ran shutdown %d times", sc.Name, g, sd), wit)
 			}
 		}
-		if count(evs, g, "first-startup") > 0 && g != 1 {
+		freshStart := g == 1 || (sc.Overlap != "" && g == 60) || (sc.Overlap == "start" && g == 50)
+		if count(evs, g, "first-startup") > 0 && !freshStart {
 			c.Violation("C16/unexpected-callback/first-startup/reload", fmt.Sprintf("%s: generation %d ran first-startup during a reload", sc.Name, g), wit)
 		}
 		if count(evs, g, "startup") > 1 {
@@ -928,6 +965,37 @@ func procChild(args []string) int {
 		}
 		fmt.Fprintf(os.Stderr, "RELOAD %s gen %d log:\n%s\n", r, gen, logs)
 		time.Sleep(10 * time.Millisecond)
+	}
+	if ov := in.Scenario.Overlap; ov != "" {
+		held := input(fmt.Sprintf("gen50 {\n srv 127.0.0.1:%d graceful\n cb\n park\n}\n", in.Ports[3]))
+		done := make(chan error, 1)
+		go func() {
+			var err error
+			if ov == "reload" {
+				_, err = inst.Restart(held) // (scenarios with this overlap have no earlier reloads)
+			} else {
+				_, err = casket.Start(held)
+			}
+			done <- err
+		}()
+		select {
+		case <-parkReached:
+		case <-time.After(30 * time.Second):
+			fmt.Fprintln(os.Stderr, "overlap: the held start never reached its park directive")
+			return 3
+		}
+		second, err := casket.Start(input(fmt.Sprintf("gen60 {\n srv 127.0.0.1:%d graceful\n cb\n}\n", in.Ports[4])))
+		if err != nil {
+			fmt.Fprintln(os.Stderr, "overlap: second start:", err)
+			return 3
+		}
+		_ = second
+		close(parkRelease)
+		if err := <-done; err == nil {
+			fmt.Fprintln(os.Stderr, "overlap: the held start did not fail")
+			return 3
+		}
+		emit(0, "op:overlap-done", "")
 	}
 	emit(0, "op:signals", "")
 	// deliver the ending signals
